@@ -156,4 +156,30 @@ impl DiffHook for Capture {
 }
 //@@ end
 
+// ---------------------------------------------------------------------------------------------
+// C13: re-applying an op to a capturing hook reproduces the op
+// ---------------------------------------------------------------------------------------------
+/// `op.apply_to_hook(&mut c)` on a `Capture` is always allowed (its precondition holds for every capture
+/// and op) ...
+pub proof fn lemma_apply_capture_pre(c0: Capture, op: DiffOp)
+    ensures hook_pre(c0, ev_of(op)), c0.accepts_replace(),
+{}
+
+/// ... and its postcondition (the three `ensures` of `DiffOp::apply_to_hook` with `D = Capture`,
+/// `*old(d) = c0`, `*final(d) = c1`) says: the call succeeds and the captured list is the old one plus
+/// exactly `op`.
+pub proof fn lemma_apply_capture(c0: Capture, c1: Capture, op: DiffOp, res: Result<(), Infallible>)
+    requires
+        hook_frame(c0, c1, res),
+        res.is_ok() ==> c1.trace() == applied_trace::<Capture>(c0.trace(), op),
+        res.is_ok() ==> c1.rely_st() == step_rel(c0.rely_rel(), c0.rely_st(), ev_of(op)),
+    ensures
+        res.is_ok(), c1.ops_spec() == c0.ops_spec().push(op),
+{
+    assert(res.is_ok());
+    assert(c1.trace() == c0.trace().push(ev_of(op)));
+    lemma_evs_of_push(c0.ops_spec(), op);
+    lemma_evs_of_inj(c1.ops_spec(), c0.ops_spec().push(op));
+}
+
 } // verus!
